@@ -19,11 +19,14 @@ from . import REPO, PKG
 class AnalysisError(Exception):
     """The analyser cannot decide (anchor vanished / unmodelled idiom)."""
 
-    def __init__(self, rule: str, site: str, reason: str):
+    def __init__(self, rule: str, site: str, reason: str, missing: str = ""):
         super().__init__(f"rule={rule} site={site} reason={reason}")
         self.rule = rule
         self.site = site
         self.reason = reason
+        # set when a *resolved* function lacks the statement that realises an obligation: the driver reports that as a
+        # violation naming the function (and stops: the rest of the pack is not analysed)
+        self.missing = missing
 
 
 @dataclass
